@@ -121,7 +121,7 @@ def build_overrides(repo: Repo, v: Variant) -> Dict[str, str]:
         if m not in repo.modules:
             raise Inapplicable(f"module {m} not found")
         if m not in trees:
-            trees[m] = copy.deepcopy(repo.modules[m].tree)
+            trees[m] = ast.parse(repo.modules[m].source)     # the source as written (before normalize.py)
         _edit_module(trees[m], f, o, n, c, occ)
     out = {}
     for m, t in trees.items():
